@@ -23,9 +23,9 @@ DRIVER = os.path.join(DRIVER_DIR, "target", "debug", "mirfacts")
 # floors = numbers counted on the pinned tree (53e83295) with this driver, minus a margin for
 # legitimate shrinkage; an extraction below them is treated as a broken analysis, not as a pass.
 FLOORS = {
-    "pumpkin_solver-rlib": 1400,
-    "pumpkin_solver-executable": 200,
-    "drcp_format-rlib": 80,
+    "pumpkin_solver-rlib": 1600,
+    "pumpkin_solver-executable": 330,
+    "drcp_format-rlib": 95,
 }
 
 CONFIGS = {
